@@ -130,6 +130,62 @@ def check_one(cfg, res):
     res["nontrivial"] += 1
 
 
+def refreshed_rb(b, coax):
+    if coax:
+        b.update_thermal_resistances(b.R_ff, b.R_fp)
+    else:
+        b.update_thermal_resistances(b.R_fp)
+    return b.calc_effective_borehole_resistance()
+
+
+def check_sequence(cfg, res):
+    """one exchanger object: convert, check that the original is untouched, re-rate it in place, convert again; the second
+    equivalent must equal the conversion of a freshly built twin"""
+    if not fits(cfg) or cfg["type"] == "single":
+        return
+    coax = cfg["type"] == "coaxial"
+    try:
+        bhe, _ = build(cfg)
+        build(dict(cfg, mdot=cfg["mdot"] * 1.8))
+    except Exception:  # noqa: BLE001
+        res.bump("construction_rejected")
+        return
+    res["evals"] += 1
+
+    def v(kind, msg, **a):
+        res["violations"].append(core.viol(kind, dict(cfg, sequence=True), msg=f"{cfg['type']}: {msg}", type=cfg["type"], **a))
+
+    rb0 = refreshed_rb(bhe, coax)
+    st0 = (float(bhe.k_g), float(bhe.grout.k), float(bhe.b.r_b), float(bhe.m_flow_borehole))
+    eq1 = bhe.to_single()
+    st1 = (float(bhe.k_g), float(bhe.grout.k), float(bhe.b.r_b), float(bhe.m_flow_borehole))
+    rb1 = refreshed_rb(bhe, coax)
+    if st1 != st0 or abs(rb1 - rb0) > 1e-12 * abs(rb0):
+        v("conversion_changes_the_original", f"after to_single() the original's (k_g, grout.k, r_b, m_flow) went from {st0} to {st1}; its R_b* after refreshing the circuit from {rb0} to {rb1}")
+    # re-rate in place (another design flow), as a parameter study on one object would
+    factor = 1.8
+    bhe.m_flow_borehole = bhe.m_flow_borehole * factor
+    if hasattr(bhe, "m_flow_pipe"):
+        bhe.m_flow_pipe = bhe.calc_mass_flow_pipe(bhe.m_flow_borehole, bhe.flow_config)
+    bhe.calc_fluid_pipe_resistance()
+    refreshed_rb(bhe, coax)
+    eq2 = bhe.to_single()
+    twin, _ = build(dict(cfg, mdot=cfg["mdot"] * factor))
+    eqf = twin.to_single()
+    for e in (eq2, eqf):
+        e.calc_fluid_pipe_resistance()
+    pairs = {"m_flow_borehole": (eq2.m_flow_borehole, eqf.m_flow_borehole), "R_fp": (eq2.R_fp, eqf.R_fp), "pipe.k": (eq2.pipe.k, eqf.pipe.k),
+             "r_in": (eq2.pipe.r_in, eqf.pipe.r_in), "r_out": (eq2.pipe.r_out, eqf.pipe.r_out), "grout.k": (eq2.grout.k, eqf.grout.k)}
+    bad = [k for k, (a, b) in pairs.items() if abs(float(a) - float(b)) > 1e-9 * max(1e-12, abs(float(b)))]
+    if bad:
+        v("second_conversion_differs_from_fresh", f"after re-rating the exchanger in place (flow x {factor}) its equivalent differs from a freshly built twin's in {bad}: "
+          + ", ".join(f"{k} {float(pairs[k][0])!r} vs {float(pairs[k][1])!r}" for k in bad[:3]), fields=bad[0])
+    if eq2 is eq1:
+        res.bump("same_object_returned_twice")
+    res.outcome("sequences")
+    res["nontrivial"] += 1
+
+
 def expand(chunk):
     t = chunk["type"]
     geoms = []
@@ -150,10 +206,15 @@ def expand(chunk):
 def run_case(case):
     res = core.Result(evals=0)
     if "k_g" in case:
-        check_one(case, res)
+        if case.get("sequence"):
+            check_sequence({k: v for k, v in case.items() if k != "sequence"}, res)
+        else:
+            check_one(case, res)
         return res
-    for cfg in expand(case):
+    for k, cfg in enumerate(expand(case)):
         check_one(cfg, res)
+        if k % case.get("seq_every", 7) == 0:
+            check_sequence(cfg, res)
         if res["sample"] is None:
             res["sample"] = cfg
     return res
@@ -177,5 +238,5 @@ def main(run: core.Run, only=None):
         assumptions=["pygfunction's convection correlations and multipole resistance are trusted",
                      "R_conv and R_pipe are the tool's documented definitions (n tubes, inner surface n*pi*(2 r_in)^2, wall ln(ro/ri)/(n 2 pi k))",
                      "the equivalent tube's R_b* is taken as the tool itself evaluates it (calc_effective_borehole_resistance on the returned object)"],
-        require_outcomes=("double_parallel", "double_series", "coaxial", "single"),
+        require_outcomes=("double_parallel", "double_series", "coaxial", "single", "sequences"),
     )
